@@ -270,4 +270,154 @@ Proof.
     rewrite KVE by fam_neq. apply L. exact CM.
 Qed.
 
+Lemma recv_clean_InvA c cp pf h c' ev :
+  wfcp cp -> InvA c -> exec c (ORecvClean cp pf h) = Some (c', ev) -> InvA c'.
+Proof.
+  intros W I E.
+  assert (OW : op_wf (ORecvClean (A:=A) cp pf h)) by exact W.
+  pose proof E as E0. cbn [Keeper.exec] in E.
+  destruct (N.eqb h 0); [discriminate|].
+  apply recv_clean_inv in E. destruct E as (VB & V & _ & _ & EQ).
+  apply clean_validate_basic_names in VB. destruct VB as [Vs Vd].
+  intros s d n (Ws & Wd & Wn) NE. rewrite EQ in NE. cbn [Keeper.c_name with_kv] in NE.
+  specialize (I s d n (conj Ws (conj Wd Wn)) NE).
+  pose proof K_clean_ne as [N1 N2].
+  assert (CM : commit_at c' s d n = commit_at c s d n).
+  { rewrite EQ. unfold KeeperFacts.commit_at. cbn [Keeper.c_kv with_kv]. rewrite lookup_set_neq by fam_neq.
+    apply clean_acks_receipts_other; unfold commit_key; rewrite key_fam_seq by (apply is_fam_noslash; auto with keys);
+      intro X; apply beq_spec in X; vm_compute in X; discriminate. }
+  assert (AK : ack_at c' s d n <> None -> ack_at c s d n <> None).
+  { rewrite EQ. unfold KeeperFacts.ack_at. cbn [Keeper.c_kv with_kv]. rewrite lookup_set_neq by fam_neq.
+    unfold clean_acks_receipts. intros X.
+    destruct (lookup (ack_key s d n) (del_range _ _ _ (del_range _ _ _ (c_kv c)))) as [v|] eqn:LK; [|contradiction].
+    apply lookup_del_range_some in LK. apply lookup_del_range_some in LK.
+    unfold KeeperFacts.ack_at. rewrite LK. discriminate. }
+  apply (at3_frame c); auto.
+  - intros R. eapply (exec_receipt_persist A H has_route on_recv on_ack); try exact E0; try exact OW;
+      [repeat split; assumption|exact R].
+  - eapply (exec_clean_mono A H has_route on_recv on_ack); [exact OW|exact E0].
+  - (* a commitment keeps its receipt: cleaning covers only ranges without commitments *)
+    intros CMT. destruct I as (L & _). specialize (L CMT).
+    rewrite EQ. unfold KeeperFacts.receipt_at in *. cbn [Keeper.c_kv with_kv].
+    rewrite lookup_set_neq by fam_neq.
+    destruct (lookup (receipt_key s d n) (clean_acks_receipts (cp_src cp) (cp_dst cp) (cp_seq cp) (c_kv c))) eqn:LK;
+      [discriminate|].
+    exfalso. unfold clean_acks_receipts in LK.
+    apply del_range_none_inv in LK. destruct LK as [LK|IR].
+    + unfold ack_key in LK.
+      rewrite lookup_del_range_fam in LK; [contradiction | auto with keys | ].
+      unfold receipt_key. rewrite key_fam_seq by (apply is_fam_noslash; auto with keys).
+      intro X. apply beq_spec in X. vm_compute in X. discriminate.
+    + destruct IR as [i [Hi Eq]]. rewrite Nnat.N2Nat.id in Hi. unfold receipt_key in Eq.
+      pose proof (validate_clean_inv A c cp V) as (LT & _ & NOC).
+      unfold wfcp in W.
+      apply seq_key_inj in Eq; try assumption;
+        try (apply is_fam_noslash; auto with keys);
+        try (apply two64_lt_bound; lia).
+      destruct Eq as (_ & -> & -> & ->).
+      apply CMT. apply NOC. unfold Keeper.clean_seq in *. lia.
+Qed.
+
+(** operations that do not install a light client under the chain's own name *)
+Definition op_noself (nm : bytes) (o : op A) : Prop :=
+  match o with OCreateClient n _ => n <> nm | _ => True end.
+
+Lemma exec_clients_self c o c' ev :
+  op_noself (c_name c) o -> NoSelf c -> exec c o = Some (c', ev) -> NoSelf c'.
+Proof.
+  intros NO NS E. unfold NoSelf in *. rewrite (exec_name _ _ _ _ E).
+  destruct o; cbn [Keeper.exec] in E.
+  - apply send_packet_inv in E. destruct E as (_ & _ & _ & _ & ->). exact NS.
+  - apply msg_recv_inv in E. destruct E as (_ & _ & _ & _ & _ & _ & _ & _ & _ & CL & _). rewrite CL. exact NS.
+  - apply msg_ack_inv in E. destruct E as (_ & c1 & ev1 & _ & _ & _ & CL & _). rewrite CL. exact NS.
+  - apply clean_packet_inv in E. destruct E as (_ & _ & _ & ->). exact NS.
+  - destruct (N.eqb h 0); [discriminate|]. apply recv_clean_inv in E. destruct E as (_ & _ & _ & _ & ->). exact NS.
+  - unfold create_client in E. destruct (has name _); [discriminate|]. inversion E; subst.
+    cbn [Keeper.c_clients with_clients Keeper.c_name]. cbn [op_noself] in NO.
+    rewrite lookup_set_neq by (intros X; apply NO; symmetry; exact X). exact NS.
+  - unfold update_client in E. destruct (lookup name (c_clients A c)) eqn:LK; [|discriminate].
+    destruct (negb _); [discriminate|]. inversion E; subst.
+    cbn [Keeper.c_clients with_clients Keeper.c_name].
+    rewrite lookup_set_neq; [exact NS|]. intros X. rewrite <- X in LK. rewrite NS in LK. discriminate.
+  - destruct (set_rules rs); [|discriminate]. inversion E; subst. exact NS.
+  - inversion E; subst. exact NS.
+  - inversion E; subst. exact NS.
+Qed.
+
+Lemma exec_InvA c o c' ev :
+  op_wf o -> NoSelf c -> c_name c <> [] -> noslash (c_name c) -> InvA c ->
+  exec c o = Some (c', ev) -> InvA c'.
+Proof.
+  intros W NS NN NSL I E.
+  destruct o as [p|p pf h|p a pf h|cp|cp pf h|nm cl|nm h sn t|rs|dt|ap].
+  - eapply send_InvA; [exact W|exact I|exact E].
+  - eapply recv_InvA; [exact W|exact NS|exact NN|exact I|exact E].
+  - eapply ack_InvA; [exact W|exact I|exact E].
+  - eapply clean_InvA; [exact W|exact NSL|exact I|exact E].
+  - eapply recv_clean_InvA; [exact W|exact I|exact E].
+  - cbn [Keeper.exec] in E. unfold create_client in E. destruct (has nm _); [discriminate|]. inversion E; subst. exact I.
+  - cbn [Keeper.exec] in E. unfold update_client in E. destruct (lookup nm _); [|discriminate].
+    destruct (negb _); [discriminate|]. inversion E; subst. exact I.
+  - cbn [Keeper.exec] in E. destruct (set_rules rs); [|discriminate]. inversion E; subst. exact I.
+  - cbn [Keeper.exec] in E. inversion E; subst. exact I.
+  - cbn [Keeper.exec] in E. inversion E; subst. exact I.
+Qed.
+
+(** reachable states *)
+Definition Good (c : chain) : Prop :=
+  NoSelf c /\ c_name c <> [] /\ noslash (c_name c) /\ InvA c.
+
+Lemma step_Good c o :
+  op_wf o -> op_noself (c_name c) o -> Good c -> Good (fst (step c o)).
+Proof.
+  intros W NO (NS & NN & NSL & I). unfold Keeper.step.
+  destruct (exec c o) as [[c' ev]|] eqn:E; cbn [fst]; [|exact (conj NS (conj NN (conj NSL I)))].
+  pose proof (exec_name _ _ _ _ E) as NM.
+  split; [eapply exec_clients_self; eassumption|]. rewrite NM.
+  split; [exact NN|]. split; [exact NSL|]. eapply exec_InvA; eassumption.
+Qed.
+
+Lemma run_Good ops : forall c,
+  Forall (op_wf (A:=A)) ops -> Forall (op_noself (c_name c)) ops -> Good c -> Good (run c ops).
+Proof.
+  induction ops as [|o ops IH]; intros c FW FN G; [exact G|].
+  inversion FW as [|? ? W FW']; subst. inversion FN as [|? ? NO FN']; subst.
+  unfold Keeper.run. cbn [fold_left]. fold (run (fst (step c o)) ops).
+  apply IH; [exact FW'| |apply step_Good; assumption].
+  assert (NM : c_name (fst (step c o)) = c_name c).
+  { unfold Keeper.step. destruct (exec c o) as [[c' ev]|] eqn:E; cbn [fst]; [eapply exec_name; exact E|reflexivity]. }
+  rewrite NM. exact FN'.
+Qed.
+
+(** the pass-through write of an acknowledgement on a relay chain hits an empty key *)
+Lemma passthrough_fresh c p a pf h c' ev :
+  wfp p -> Good c -> ack_packet A H c p a pf h = Some (c', ev) -> p_relay p = c_name c ->
+  ack_at c (p_src p) (p_dst p) (p_seq p) = None.
+Proof.
+  intros W (NS & NN & NSL & I) E RL.
+  pose proof (ack_packet_inv _ _ _ _ _ _ _ _ _ E) as (V & _ & ST & (from & cl & LK & _ & FR & _) & _).
+  apply validate_basic_names in V. destruct V as (Ns & Nd & _ & _).
+  assert (SN : p_src p <> c_name c).
+  { intros X. rewrite X, beq_refl in FR. cbn [andb] in FR.
+    assert (RN : is_nil (p_relay p) = false) by (rewrite RL; destruct (c_name c); [contradiction|reflexivity]).
+    rewrite RN in FR. cbn [negb] in FR. subst from. rewrite RL in LK. unfold NoSelf in NS. congruence. }
+  destruct (I (p_src p) (p_dst p) (p_seq p) (conj Ns (conj Nd W)) SN) as (_ & _ & J).
+  destruct (ack_at c (p_src p) (p_dst p) (p_seq p)) eqn:AK; [|reflexivity].
+  exfalso. specialize (J ltac:(discriminate)). rewrite J in ST.
+  apply beq_spec in ST. symmetry in ST. apply H_nonempty in ST. exact ST.
+Qed.
+
+(** ... in every state reachable from a chain with an empty packet store *)
+Theorem relay_ack_never_overwrites c0 ops p a pf h c' ev :
+  c_kv c0 = [] -> NoSelf c0 -> c_name c0 <> [] -> noslash (c_name c0) ->
+  Forall (op_wf (A:=A)) ops -> Forall (op_noself (c_name c0)) ops -> wfp p ->
+  ack_packet A H (run c0 ops) p a pf h = Some (c', ev) -> p_relay p = c_name (run c0 ops) ->
+  ack_at (run c0 ops) (p_src p) (p_dst p) (p_seq p) = None.
+Proof.
+  intros KV NS NN NSL FW FN W E RL.
+  assert (G : Good (run c0 ops)).
+  { apply run_Good; [exact FW|exact FN|]. exact (conj NS (conj NN (conj NSL (InvA_empty c0 KV)))). }
+  exact (passthrough_fresh _ _ _ _ _ _ _ W G E RL).
+Qed.
+
 End AckOnce.
